@@ -288,27 +288,41 @@ func (s *SpokFile) run(stream iostream.IOStream, runner shell.Runner, force bool
 		case force || !hasFiles || cachedDigest == "" || currentDigest != cachedDigest:
 			// Forced, nothing to compare, never run before or out of date, in which case the action
 			// to be taken is the same: run the task
+
+			// From here on the task is no longer known to be up to date with the files it was last
+			// recorded against, forget them before running it so that a run that gets interrupted
+			// after the task has done its work (but before that is recorded) cannot leave a record
+			// behind that would later be taken for the state of its outputs
+			if cachedDigest != "" {
+				cachedState.Set(taskToRun.Name, "")
+				if err := cachedState.Dump(cachePath); err != nil {
+					return nil, err
+				}
+			}
 			verifhook.Point("run.task.pre", taskToRun.Name)
 			result, err = taskToRun.Run(runner, stream, s.Env())
 			verifhook.Point("run.task.post", taskToRun.Name, err == nil && result.Ok())
 			if err != nil {
+				if cachedDigest != "" && cachedDigest != currentDigest {
+					// Just like a failed task, it gets back whatever it last succeeded on
+					cachedState.Set(taskToRun.Name, cachedDigest)
+					cachedState.Dump(cachePath) //nolint: errcheck // Already returning an error
+				}
 				return nil, fmt.Errorf("Task %q encountered an error: %w", taskToRun.Name, err)
 			}
 
 			// Only now that the task has succeeded on these files is its digest recorded,
 			// and saved straight away so that it does not depend on what any other task does.
-			// A task that failed keeps whatever it last succeeded on, unless it failed on
-			// those very files (a forced run) in which case it is no longer up to date with them
+			// A task that failed gets back whatever it last succeeded on, unless it failed on
+			// those very files (a forced run) in which case it is no longer up to date with them.
+			// A task that succeeded with none of its dependencies matching a file (e.g. they were
+			// all deleted) has nothing to record, and what it was recorded against stays forgotten
 			changed := true
 			switch {
 			case hasFiles && result.Ok():
 				cachedState.Set(taskToRun.Name, currentDigest)
-			case hasFiles && cachedDigest == currentDigest:
-				cachedState.Set(taskToRun.Name, "")
-			case !hasFiles && result.Ok() && cachedDigest != "":
-				// Succeeded with none of its dependencies matching a file (e.g. they were all deleted),
-				// so the files it was recorded against are no longer what it last succeeded on
-				cachedState.Set(taskToRun.Name, "")
+			case !result.Ok() && cachedDigest != "" && cachedDigest != currentDigest:
+				cachedState.Set(taskToRun.Name, cachedDigest)
 			default:
 				changed = false
 			}
